@@ -115,6 +115,8 @@ def check(ctx, h, r):
     inp = {"doc": h.text, "ops": [list(x.op) for x in h.recs], "at": list(r.op), "before": before, "output": out}
     from .c05 import family_of
 
+    if r.op[0] == "set" and ("#" in r.op[2] or "/*" in r.op[2]):
+        return  # the VALUE carries a comment: where the renderer places it is C03/C06's business
     key0 = {"op": r.op[0], "path": ep.shape_of_path(path), "wrapper": h.info.get("wrapper"),
             "family": family_of(names, before) if not depth else "none"}
     if not depth:
@@ -199,6 +201,14 @@ def check(ctx, h, r):
                 ok = True
                 break
         if not ok:
+            # is the removed binding the last item, followed by own-line comments before the closer?
+            tl = toks(before)
+            after_b = [t for t in tl if t[1] >= b.end_byte]
+            row_b = before.encode("utf-8").count(b"\n", 0, b.end_byte)
+            own = [t for t in after_b if t[3] and before.encode("utf-8").count(b"\n", 0, t[1]) > row_b]
+            nxt_code = next((t for t in after_b if not t[3]), None)
+            if own and nxt_code is not None and nxt_code[0] in ("}", "in") and own[0][1] < nxt_code[1]:
+                key0 = {**key0, "closing_comments": True}
             ctx.fail({"clause": "remove-locality", **key0}, inp,
                      f"{r.op!r}: the output is not the input minus the addressed binding (and its comments): "
                      f"{before!r} -> {out!r}")
